@@ -507,3 +507,92 @@ def f1_resolver_operand(ctx: Ctx) -> None:
                                                   f'`{d}` was captured as `{dt[:60]}` but at the store `{v}` denotes `{vt[:70]}`: the dtype handed to the resolver belongs to the value '
                                                   'before it was rebuilt, so the stored elements are cast into a dtype resolved for other values', key=key)
     ctx.require(n >= 4, 'dtype captures paired with a later store of the same local')
+
+
+def f1_dtype_accumulators(ctx: Ctx) -> None:
+    R = 'F1.dtype-accumulator-merged'
+    ctx.rule(R, 'a mapping that collects one dtype per key (recognised by a store of a dtype-resolver result into it) and is filled inside a loop whose keys can repeat '
+             'merges a repeated key with the resolver — the loop contains a store `D[k] = resolve_dtype(D[k], ...)`; a loop that only defines (`D[k] = dtype`, '
+             '`D.setdefault(k, dtype)`) keeps the first or last dtype of the group and the wider values of the other members are cast into it', floor=1)
+    prog = ctx.prog
+    n = 0
+    for f in prog.all_funcs():
+        if isinstance(f.node, ast.Lambda) or f.module.short in SKIP_MODULES:
+            continue
+        maps: tp.Set[str] = set()
+        for a in walk_local(f.node):
+            if isinstance(a, ast.Assign) and isinstance(a.targets[0], ast.Subscript) and isinstance(a.targets[0].value, ast.Name) \
+                    and isinstance(a.value, ast.Call) and call_name(a.value) in RESOLVERS:
+                maps.add(a.targets[0].value.id)
+        for d in sorted(maps):
+            for lp in walk_local(f.node):
+                if not isinstance(lp, (ast.For, ast.While)):
+                    continue
+                stores: tp.List[tp.Tuple[ast.AST, tp.Optional[ast.expr], tp.Optional[ast.expr]]] = []   # (node, key, value)
+                for s in ast.walk(lp):
+                    if isinstance(s, ast.Assign) and isinstance(s.targets[0], ast.Subscript) and isinstance(s.targets[0].value, ast.Name) and s.targets[0].value.id == d:
+                        stores.append((s, s.targets[0].slice, s.value))
+                    elif isinstance(s, ast.Call) and isinstance(s.func, ast.Attribute) and isinstance(s.func.value, ast.Name) and s.func.value.id == d \
+                            and s.func.attr in ('setdefault', 'update', '__setitem__'):
+                        stores.append((s, s.args[0] if s.args else None, s.args[1] if len(s.args) > 1 else None))
+                if not stores:
+                    continue
+                # innermost loop holding the stores only
+                if any(isinstance(x, (ast.For, ast.While)) and x is not lp and all(any(y is st[0] for y in ast.walk(x)) for st in stores) for x in ast.walk(lp)):
+                    continue
+                n += 1
+                key = f'{f.name}:{d}'
+                merges = [st for st in stores if isinstance(st[2], ast.Call) and call_name(st[2]) in RESOLVERS and st[1] is not None
+                          and any(isinstance(x, ast.Subscript) and isinstance(x.value, ast.Name) and x.value.id == d and norm(x.slice) == norm(st[1]) for x in ast.walk(st[2]))]
+                if merges:
+                    ctx.ok(R, f, merges[0][0], f'`{d}` is merged per key with {call_name(merges[0][2])} ({len(stores)} store(s) in the loop)', key=key)
+                else:
+                    ctx.bad(R, f, stores[0][0], f'`{norm(stores[0][0])[:60]}` only defines the dtype kept for a key of `{d}`; no store in the loop merges a repeated key with the '
+                            'dtype resolver: the dtype of one member of the group wins and the values of the others are cast into it', key=key)
+    ctx.require(n >= 1, 'dtype maps filled in a loop')
+
+
+def f1_loop_dtype_carried(ctx: Ctx) -> None:
+    R = 'F1.loop-dtype-carried'
+    ctx.rule(R, 'a dtype name that types an array built from a list filled in a loop (`np.array(L, dtype=X)` after `L.append(...)` in the loop) describes every collected '
+             'element: inside the loop X is only widened — each assignment is a dtype-resolver call over X itself or over the value X held before the loop; a plain '
+             'reassignment inside the loop lets the last iteration decide, and an element collected earlier (a fill value of another type) is cast into it', floor=1)
+    prog = ctx.prog
+    n = 0
+    for f in prog.all_funcs():
+        if isinstance(f.node, ast.Lambda) or f.module.short in SKIP_MODULES:
+            continue
+        for c in walk_local(f.node):
+            if not (isinstance(c, ast.Call) and call_name(c) == 'np.array' and c.args and isinstance(c.args[0], ast.Name)):
+                continue
+            dt = kwarg(c, 'dtype') or (c.args[1] if len(c.args) > 1 else None)
+            if not isinstance(dt, ast.Name):
+                continue
+            lst, x = c.args[0].id, dt.id
+            loops = [lp for lp in walk_local(f.node) if isinstance(lp, (ast.For, ast.While)) and lp.end_lineno < c.lineno
+                     and any(isinstance(a, ast.Call) and isinstance(a.func, ast.Attribute) and a.func.attr == 'append' and isinstance(a.func.value, ast.Name) and a.func.value.id == lst
+                             for a in ast.walk(lp))
+                     and any(isinstance(a, ast.Assign) and any(isinstance(t, ast.Name) and t.id == x for t in a.targets) for a in ast.walk(lp))]
+            # the innermost such loop in which the list is also created is not required: take the innermost loop appending and assigning
+            loops = [lp for lp in loops if not any(o is not lp and any(y is o for y in ast.walk(lp)) for o in loops)]
+            for lp in loops:
+                n += 1
+                key = f'{f.qualname.split(".", 1)[1]}:{x}'
+                inits = [norm(a.value) for a in walk_local(f.node) if isinstance(a, ast.Assign) and any(isinstance(t, ast.Name) and t.id == x for t in a.targets)
+                         and a.lineno < lp.lineno and not any(y is a for y in ast.walk(lp))]
+                bad = None
+                for a in ast.walk(lp):
+                    if isinstance(a, ast.Assign) and any(isinstance(t, ast.Name) and t.id == x for t in a.targets):
+                        v = a.value
+                        args = [norm(z) for z in v.args] if isinstance(v, ast.Call) else []
+                        if isinstance(v, ast.Call) and call_name(v) in RESOLVERS and (x in args or any(i in args for i in inits)):
+                            continue
+                        bad = a
+                        break
+                if bad is not None:
+                    ctx.bad(R, f, bad, f'`{norm(bad)[:60]}` reassigns the dtype of `np.array({lst}, dtype={x})` inside the loop that fills `{lst}`' +
+                            ('' if inits else f' (and `{x}` has no value before the loop)') + ': the last iteration decides the dtype and elements collected before '
+                            'it are cast (a float fill value into an int column)', key=key)
+                else:
+                    ctx.ok(R, f, c, f'`{x}` starts as `{inits[0] if inits else "?"}` and is only widened by the resolver inside the loop', key=key)
+    ctx.require(n >= 1, 'arrays typed by a loop-carried dtype')
